@@ -263,7 +263,7 @@ def replay_isolation(d):
     return (not p), "seed %s: %s" % (d["inputs"]["seed"], p or "isolated")
 
 
-@bounded("C18.history_isolation", ["C18", "C10"], note="a StrandDetector / GeneInfo created for a second chromosome after a first one was "
+@bounded("C18.history_isolation", ["C18", "C10"], shards=4, note="a StrandDetector / GeneInfo created for a second chromosome after a first one was "
          "processed (same intron coordinates, different sequence, annotation strands set on the first) must answer from its own "
          "sequence only; bound: N random sequence pairs")
 def c18_isolation(tier, rng):
